@@ -369,7 +369,7 @@ func c17Main(args []string) {
 		return
 	}
 	seed := envU64("VERIF_SEED", 1)
-	nSched, nAbort, nProp := 90, 90, 90
+	nSched, nAbort, nProp := 60, 60, 60
 	if os.Getenv("VERIF_TIER") == "thorough" {
 		nSched, nAbort, nProp = 1500, 1500, 1500
 	}
